@@ -227,15 +227,8 @@ def anyConvert : Nat → V → Out V
         (b.map fun (n : Nat) => V.int .uint8 (Int.ofNat n))).bind fun ys => .ok (.list ys)
     | .map _ kvs =>
       (forKV (fun k x =>
-        match (anyConvert fuel k).addSeg ("{" ++ fmtKey k ++ "}") with
-        | .ok k' => match (anyConvert fuel x).addSeg ("[" ++ fmtKey k' ++ "]") with
-          | .ok x' => .ok (k', x')
-          | .err e => .err e
-          | .panic => .panic
-          | .fuel => .fuel
-        | .err e => .err e
-        | .panic => .panic
-        | .fuel => .fuel) kvs).bind fun kvs' =>
+        ((anyConvert fuel k).addSeg ("{" ++ fmtKey k ++ "}")).bind fun k' =>
+          ((anyConvert fuel x).addSeg ("[" ++ fmtKey k' ++ "]")).bind fun x' => .ok (k', x')) kvs).bind fun kvs' =>
         if dupKey kvs' then .cerr else .ok (.map .anyAny kvs')
     | _ => .cerr
 
